@@ -208,3 +208,58 @@ Proof.
   apply (same_results_cli body htr hs c1 tr1 s1 c2 tr2 s2 R NC AD T1 T2 F1 F2).
   exact (bridge_answers_own_requests c1 tr1 s1 htr body T1 B).
 Qed.
+
+(** * non-vacuity *)
+(* two round trips whose responses are handed to Recv in the reverse order *)
+Definition ex_htr : list HttpChan.label :=
+  [HSend; HSend; HDo 1 (DoStatus 200); HDo 0 (DoStatus 200); HRecv 1; HRecv 0].
+(* a Call (id 1) and a Batch of two calls (ids 2, 3) around a notification *)
+Definition ex_ops : list CliModel.label :=
+  [LOp 0 KCall [ex_spec 49]; LOp 1 KBatch [ex_spec 50; ex_nspec; ex_spec 51];
+   LRelReq 0; LRelReq 1; LRelReq 1; LRelSend 0; LRelSend 1].
+(* the local server behind the bridge: method "m" answers by params *)
+Definition ex_inner := Bridge.table_inner [[109%N]]
+  [([91;49;93]%N, Bridge.RResult [55%N]); ([91;50;93]%N, Bridge.RError (Bridge.err_code 7%Z)); ([91;51;93]%N, Bridge.RResult [57%N])].
+Definition ex_rmsg (id : bytes) (e : option werr) (r : bytes) : jmsg :=
+  {| j_id := id; j_method := []; j_params := []; j_error := e; j_result := r; j_err := None |}.
+Definition ex_body (j : nat) : inbound :=
+  match j with
+  | 0 => InMsgs false [ex_rmsg [49%N] None [55%N]]
+  | _ => InMsgs true [ex_rmsg [50%N] (Some (Bridge.err_code 7%Z)) []; ex_rmsg [51%N] None [57%N]]
+  end.
+(* over the channel: the batch's answer first; over the direct connection: in request order; different schedules *)
+Definition ex_tr_http : list CliModel.label :=
+  ex_ops ++ [LFeed (FMsg (ex_body 1)); LFeed (FMsg (ex_body 0)); LRelDeliver 0; LRelDeliver 1].
+Definition ex_tr_direct : list CliModel.label :=
+  ex_ops ++ [LFeed (FMsg (ex_body 0)); LRelDeliver 0; LFeed (FMsg (ex_body 1)); LRelDeliver 1].
+
+Example same_results_bridge_nonvacuous :
+  exists hs s1 s2 o1 o2 p1 p2,
+    HttpChan.run HttpChan.init ex_htr = Some hs /\ ~ In HClose ex_htr /\ forallb is_done (gs hs) = true
+    /\ traces_to ex_cfg ex_tr_http s1 /\ traces_to ex_cfg ex_tr_direct s2
+    /\ feeds ex_tr_http = http_feeds ex_body ex_htr /\ feeds ex_tr_direct = direct_feeds ex_body ex_htr
+    /\ http_feeds ex_body ex_htr <> direct_feeds ex_body ex_htr
+    /\ bridge_round_trips s1 ex_htr ex_body
+    /\ op_at s1 0 = Some o1 /\ op_at s2 0 = Some o2 /\ o_ctx o1 = None /\ o_ctx o2 = None
+    /\ op_at s1 1 = Some p1 /\ op_at s2 1 = Some p2 /\ o_ctx p1 = None /\ o_ctx p2 = None
+    /\ err s1 = None /\ err s2 = None /\ op_ids s1 0 = op_ids s2 0 /\ op_ids s1 1 = op_ids s2 1
+    /\ In (ORet 0 (RetCall (RRes [55%N]))) (hist s1) /\ In (ORet 0 (RetCall (RRes [55%N]))) (hist s2)
+    /\ In (ORet 1 (RetBatch [([50%N], RErr (Bridge.err_code 7%Z)); ([51%N], RRes [57%N])])) (hist s1)
+    /\ In (ORet 1 (RetBatch [([50%N], RErr (Bridge.err_code 7%Z)); ([51%N], RRes [57%N])])) (hist s2).
+Proof.
+  destruct (HttpChan.run HttpChan.init ex_htr) as [hs|] eqn:Eh; [|revert Eh; vm_compute; discriminate].
+  destruct (run (init_of ex_cfg) ex_tr_http) as [[s1 oss1]|] eqn:E1; [|revert E1; vm_compute; discriminate].
+  destruct (run (init_of ex_cfg) ex_tr_direct) as [[s2 oss2]|] eqn:E2; [|revert E2; vm_compute; discriminate].
+  exists hs, s1, s2. revert Eh E1 E2. vm_compute. intros Eh E1 E2. injection Eh as <-. injection E1 as <- <-. injection E2 as <- <-.
+  do 4 eexists. split; [reflexivity|]. split; [intros H; repeat (destruct H as [H|H]; [discriminate|]); exact H|].
+  split; [reflexivity|]. split; [eexists; reflexivity|]. split; [eexists; reflexivity|].
+  split; [reflexivity|]. split; [reflexivity|]. split; [discriminate|].
+  split.
+  { exists (fun j => j), ex_inner, (fun j => N.of_nat (2 * j + 1)), (fun j => negb (j =? 0)).
+    split; [apply BridgeProofs.table_inner_ok|]. split; [auto|].
+    intros j Hj. assert (Hj' : j < 2) by exact Hj. destruct j as [|[|j]]; [| |lia].
+    - eexists; eexists. split; [reflexivity|]. split; [reflexivity|]. split; vm_compute; reflexivity.
+    - eexists; eexists. split; [reflexivity|]. split; [reflexivity|]. split; vm_compute; reflexivity. }
+  vm_compute. repeat (split; [reflexivity|]).
+  repeat split; auto 10.
+Qed.
